@@ -113,6 +113,9 @@ type Bridge struct {
 	Fault func(r *SeenReq) error
 	// CtxKey: when set, ctx.Value(CtxKey) of the Handle call is recorded with the request.
 	CtxKey interface{}
+	// CancelLagNs: when the client's context ends, a reader blocked on the response body learns of it only this much
+	// later (a socket whose teardown takes a while).
+	CancelLagNs atomic.Int64
 
 	mu   sync.Mutex
 	Seen []*SeenReq
@@ -295,6 +298,9 @@ func (b *Bridge) Handle(ctx context.Context, _ *http.Client, req *http.Request) 
 	go func() {
 		select {
 		case <-ctx.Done():
+			if lag := b.CancelLagNs.Load(); lag > 0 {
+				time.Sleep(time.Duration(lag))
+			}
 			pipe.CloseRead(ctx.Err())
 			cancel()
 		case <-done:
